@@ -4,7 +4,8 @@ import GqlModel.Schema.Spec
   SingleFieldSubscriptions (§5.2.3.1): the schema hypothesis `subscriptionRootExact` follows from
   the loaded-schema predicates of `GqlModel/Schema/Spec.lean` — consistent keys, exact
   `PossibleTypes` on abstract types — and "the root operation types are object types"
-  (`Spec.rootTypesAreObjects`, which the loader does not enforce).
+  (`Spec.rootTypesAreObjects`: enforced by the loader since the repair of the root kinds,
+  `Gql.Load.loaded_rootTypesAreObjects` / `C07_root_types_are_objects`).
 -/
 namespace Gql.Validate
 open Gql Gql.Validate.Rules
